@@ -218,6 +218,7 @@ func init() {
 		if err != nil {
 			return err
 		}
+		c02Spell = args["spell"] // spelling of constants in the source text, from the case text (trig spell:<style>)
 		fails, err := c02RunOne(d, args["format"], c02ParseCombo(args["combo"]), args["lang"])
 		if err != nil {
 			return err
@@ -240,6 +241,7 @@ func init() {
 			return err
 		}
 		format, lang, cls := args["format"], args["lang"], args["cls"]
+		c02Spell = args["spell"]
 		combo := c02ParseCombo(args["combo"])
 		budget := argInt(args, "budget", 60)
 		fails, err := c02RunOne(d, format, combo, lang)
